@@ -131,7 +131,8 @@ class Builder(NullCell):
     def store_var_int(self, value: int, bit_length: int):
         if value == 0:
             return self.store_uint(0, bit_length)
-        byte_length = math.ceil(value.bit_length() / 8)
+        # minimal number of bytes of the two's complement form (one more bit than the magnitude for the sign)
+        byte_length = ((value if value > 0 else ~value).bit_length() + 8) // 8
         return self.store_uint(byte_length, bit_length).store_int(value, byte_length * 8)
 
     def store_coins(self, amount: int):
